@@ -19,6 +19,12 @@ UNS = ["Minus", "Bang", "Not"]
 canon = wire.canon_rterr
 
 
+def model_skip(c):
+    # a repetition beyond 16 MiB: the memory exclusion — the implementation may panic, abort or even succeed
+    return c.model == "MEM-EXCLUDED"
+
+
+
 def nontrivial(c):
     return c.impl.startswith(("ok", "rterr"))
 
